@@ -270,7 +270,60 @@ def run_isar_stream(chk, workdir, n_schemas, c_safe):
             chk.correspondence_mismatch('Expr.evalText (calc) = value computed by prophyc.calc', icase, got_calc, model)
 
 
-HOST_TEXTS = ['12', '0x10', '7/2', '(9-2)/2+5', '2*(3+4)', '(0-7)/2+5', '10+(1-8)/2', '010', '0010+1']
+CONST_EDGES = ['18446744073709551615', '18446744073709551616', '-18446744073709551615', '-9223372036854775808', '-9223372036854775809',
+               '9223372036854775807 + 1', '0xFFFFFFFFFFFFFFFF', '0x10000000000000000', '-(1 << 63)', '-(1 << 63) - 1', '(1 << 64) - 1', '-0',
+               '2 * 9223372036854775807 + 1', '0 - 9223372036854775808', '1 << 64']
+
+
+def run_const_edges(chk, workdir):
+    """prophy constants at the edges of what 64 bits hold: accepted exactly when the model's `Expr.constText` accepts them,
+    and then the same integer in Python and in both C++ headers (compiled)"""
+    import prophyc
+    reqs = [{'op': 'prophyc_const', 'text': t, 'env': {}} for t in CONST_EDGES]
+    ans = client.batch(reqs)
+    for i, (text, model) in enumerate(zip(CONST_EDGES, ans)):
+        base = 'ce%d' % i
+        src = os.path.join(workdir, base + '.prophy')
+        with open(src, 'w') as f:
+            f.write('const KE = %s;\n' % text)
+        icase = {'syntax': 'prophy-constant-edge', 'expression': text, 'schema': 'const KE = %s;' % text}
+        chk.count(('const-edge', text), True)
+        chk.bump('kind:constant-edge')
+        try:
+            py_impl.run_prophyc(['--python_out', workdir, '--cpp_full_out', workdir, '--cpp_out', workdir, src])
+            accepted = True
+        except prophyc.ProphycError:
+            accepted = False
+        chk.corr_compared += 1
+        if accepted != ('value' in model):
+            chk.correspondence_mismatch('Expr.constText accepts = prophyc accepts the constant', icase, accepted, model)
+        if not accepted:
+            continue
+        want = eval(text)   # noqa: S307 (literals of CONST_EDGES)
+        got = {'python': py_impl.import_file(os.path.join(workdir, base + '.py')).KE}
+        for full in (True, False):
+            hdr, ns = (base + '.ppf.hpp', 'prophy::generated::') if full else (base + '.pp.hpp', '')
+            prog = os.path.join(workdir, base + ('f' if full else 'r') + '_main.cpp')
+            with open(prog, 'w') as f:
+                f.write('#include <stdio.h>\n#include "%s"\nint main() { if (%sKE < 0) printf("%%lld\\n", (long long)%sKE); else printf("%%llu\\n", (unsigned long long)%sKE); }\n'
+                        % (hdr, ns, ns, ns))
+            exe = prog[:-4]
+            p = subprocess.run(['g++', '-std=c++11', '-w', '-I' + os.path.join(REPO, 'prophy_cpp', 'include'), '-I' + workdir, prog, '-o', exe],
+                               stdout=subprocess.PIPE, stderr=subprocess.STDOUT, timeout=300)
+            key = 'c++ full' if full else 'c++ raw'
+            if p.returncode != 0:
+                got[key] = 'does not compile: ' + p.stdout.decode(errors='replace')[:160]
+            else:
+                got[key] = int(subprocess.run([exe], stdout=subprocess.PIPE, timeout=60).stdout.decode().strip())
+        if any(v != want for v in got.values()):
+            chk.property_violation(icase, {'what': 'an accepted constant is not the integer %d in every back-end' % want, 'values': got})
+
+
+HOST_TEXTS = ['12', '0x10', '7/2', '(9-2)/2+5', '2*(3+4)', '(0-7)/2+5', '10+(1-8)/2', '010', '0010+1', '(1) << (31)', '2147483647 + 1', '65536 * 65536',
+              '1 << 30', '32768 * 65535']
+
+
+HOST_TEXTS_BIG = ['(1) << (31)', '2147483647 + 1', '65536 * 65536', '1 << 30', '32768 * 65535']
 
 
 def classify_host_text(case, detail):
@@ -284,6 +337,10 @@ def classify_host_text(case, detail):
     m = re.search(r'\(([^()]*)\)\s*/', text)
     if m and '-' in m.group(1):
         return 'D63'
+    values = detail.get('values', {})
+    calc = values.get('calc:constant')
+    if isinstance(calc, int) and calc >= 2 ** 31 and values.get('python:constant') == calc and re.search(r'<<|\*|\+', text):
+        return 'D63'      # the C++ compiler evaluates the pasted text in 32-bit int arithmetic
     return None
 
 
@@ -295,9 +352,10 @@ def run_isar_host_text(chk, workdir):
     for i, text in enumerate(HOST_TEXTS):
         base = 'h%d' % i
         src = os.path.join(workdir, base + '.xml')
+        small = text not in HOST_TEXTS_BIG        # array sizes only for texts that denote a small number
         with open(src, 'w') as f:
             f.write('<dom><constant name="KH" value="%s"/><struct name="SH"><member name="a" type="u8"><dimension size="%s"/></member>'
-                    '<member name="b" type="u8"><dimension size="KH"/></member></struct></dom>' % (text, text))
+                    '<member name="b" type="u8"><dimension size="%s"/></member></struct></dom>' % (text, text if small else '2', 'KH' if small else '2'))
         icase = {'syntax': 'isar-host-text', 'expression': text}
         chk.count(('isar-host-text', text), True)
         chk.bump('kind:isar-host-text')
@@ -309,13 +367,14 @@ def run_isar_host_text(chk, workdir):
         nodes = res[base]
         seen = {'calc:constant': M._collect_constants(nodes).get('KH')}
         for n in nodes:
-            if isinstance(n, M.Struct):
+            if isinstance(n, M.Struct) and small:
                 seen['calc:size'] = n.members[0].numeric_size
                 seen['calc:struct-size'] = n.byte_size // 2
         try:
             mod = py_impl.import_file(os.path.join(workdir, base + '.py'))
             seen['python:constant'] = mod.KH
-            seen['python:size'] = len(mod.SH().a)
+            if small:
+                seen['python:size'] = len(mod.SH().a)
         except Exception as ex:  # noqa
             seen['python:constant'] = '%s: %s' % (type(ex).__name__, str(ex)[:80])
         prog = os.path.join(workdir, base + '_main.cpp')
@@ -329,7 +388,9 @@ def run_isar_host_text(chk, workdir):
             seen['c++:constant'] = 'does not compile: ' + p.stdout.decode(errors='replace')[:120]
         else:
             out = subprocess.run([exe], stdout=subprocess.PIPE, timeout=60).stdout.decode().split()
-            seen['c++:constant'], seen['c++:size'], seen['c++:byte-size'] = int(out[0]), int(out[1]), int(out[2])
+            seen['c++:constant'] = int(out[0])
+            if small:
+                seen['c++:size'], seen['c++:byte-size'] = int(out[1]), int(out[2])
         if len(set(map(str, seen.values()))) != 1:
             chk.property_violation(icase, {'what': 'one isar expression text denotes different integers in prophyc and its back-ends', 'values': seen},
                                    classify_host_text)
@@ -412,6 +473,7 @@ def run_c14(tier):
         run_isar_stream(chk, workdir, chk.scale(40, 400), c_safe=True)
         run_isar_stream(chk, workdir, chk.scale(15, 100), c_safe=False)
         run_isar_host_text(chk, workdir)
+        run_const_edges(chk, workdir)
     finally:
         shutil.rmtree(workdir, ignore_errors=True)
     return chk.finish()
